@@ -28,6 +28,11 @@ pub fn families(prop: &str, tier: Tier) -> Vec<Cfg> {
         x.io = IoMenu::benign();
         x.broker.may_lose_session = true;
         x.broker.connack_extras = vec![0, 1, 2, 3, 4, 5, 6];
+        if *p == "C06" {
+            // a window of one, so that a further property mistaken for the Receive Maximum (they follow it in the
+            // CONNACK and carry larger values) shows as a second publish in flight
+            x.broker.receive_max = vec![Some(1)];
+        }
         x.keepalive = 60;
         x.rx = 128;
         x.max_ops = if q { 6 } else { 8 };
